@@ -1,5 +1,5 @@
 (* num_shapes(n) is defined for every n (no OOB / fuel / error in the memoised recursion),
-   hence "out-of-range shape ranks are rejected" holds unconditionally for every n >= 2. *)
+   hence "out-of-range shape ranks are rejected" holds unconditionally for every n >= 1. *)
 From Coq Require Import List ZArith Bool Lia Arith.
 From TskVerif Require Import Base.Common C15.Combination C15.Partitions C15.RankTree
   C15.CombProofs C15.CombRankProofs C15.WRProofs C15.RankTreeBounded C15.OorProofs
@@ -114,10 +114,10 @@ Proof.
   rewrite Hv' in Hs. injection Hs as <-. exact P.
 Qed.
 
-(* unconditional: for every n >= 2 there is a bound nS = num_shapes(n) beyond which every
+(* unconditional: for every n >= 1 there is a bound nS = num_shapes(n) beyond which every
    shape rank is rejected *)
 Theorem unrank_oor_shape_rejected_total n :
-  2 <= n ->
+  1 <= n ->
   exists nS, num_shapes n = Ok nS /\
     forall s l, nS <= s -> 0 <= l -> tree_unrank n s l = Err E_RANK.
 Proof.
